@@ -10,6 +10,7 @@ LEVEL = "exploration"
 RULE = (
     "One spec in three has lived before (warm start): another model edited in place into this one or swapped into the old project object, or the model's own run cut short by max_time and then continued with one of the unequal initialize-flag combinations (state carried over and logs restarted, or state reset and logs appended), or a first run that does not initialize the logs. Teams may list a task without the task listing the team (one-sided links). "
     'One cold-started spec in six is simulated with unit_time 2 or 3 (absence lists in time units, steps and logs indexed by step). '
+    'A component whose tasks are all FINISHED at the update of a step does not count as occupying room. '
     'Hypothesis-generated models (profiles W and F, all dependency kinds, solo flags, fixed lists, per-resource absences, all task rules). Oracle at every working step: start dependencies satisfied in the updated snapshot => not NONE; automatic task without component not READY after allocation; no FREE worker eligible (C04 predicate) for a READY/WORKING non-facility task that can still accept it, and no FREE eligible worker+facility pair of the placed workplace for facility tasks of single-task components of flat products - for a component that stayed unplaced, of every workplace the task lists whose free room (counting everything that was there at the start or at the end of the pass) holds the component; sizes and capacities are dyadic or decimal (exact fits such as 0.3 = 3 x 0.1); zero remaining work and finish dependencies at the end of step k-1 => FINISHED at step k. Non-trivial = a READY task waited after allocation for lack of an eligible worker, or a worker joined an already WORKING task; distinct by spec hash.'
 )
 ASSUMPTIONS = [
